@@ -852,8 +852,19 @@ func (w *world) step(h int, rd *reader, op, a, b, c int) string {
 					}
 				}
 			})
+			// ... and then the builder is Reset -- possibly WITHOUT ever having been built, with the
+			// assigned node's storage still in its hands -- and used for something else
+			w.s.Yield("reset")
+			safe(func() {
+				nb.Reset()
+				v := w.genKind(e.snap.K, 8)
+				if err := model.Assemble(nb, v, gen.LinkFromBin, nil); err == nil {
+					w.add(nb.Build(), v, "rebuilt-after-reset", nb)
+					w.st.Inc("probe.assign_reset_without_build_rebuild")
+				}
+			})
 			w.share = true
-			return fmt.Sprintf("assign-then-extend(%s#%d)", e.origin, i)
+			return fmt.Sprintf("assign-then-extend-then-reset(%s#%d)", e.origin, i)
 		}
 		w.s.Yield("reset")
 		safe(func() {
